@@ -103,6 +103,21 @@ type verdict struct {
 	skipped bool
 	msgs    []string
 	dur     time.Duration
+	// leaked: goroutines of the client library still alive after every client was stopped
+	leaked []string
+}
+
+func firstClientFrame(stack string) string {
+	for _, l := range strings.Split(stack, "\n") {
+		l = strings.TrimSpace(l)
+		if strings.HasPrefix(l, "github.com/openconfig/gribigo/client.") {
+			if i := strings.Index(l, "("); i > 0 && !strings.HasPrefix(l[i:], "(*") {
+				return l[:i]
+			}
+			return l
+		}
+	}
+	return "?"
 }
 
 // runTest runs one compliance test against the server behind e with fresh clients.
@@ -120,6 +135,20 @@ func runTest(e *env, tt *compliance.TestSpec) verdict {
 	quiet := &mon.TB{}
 	quiet.Run(func(t testing.TB) { c.Stop(t); sc.Stop(t) })
 	v := verdict{name: tt.In.ShortName, dur: time.Since(start)}
+	// Every client the test used has been stopped: nothing of the client library may still be
+	// running (bounded wait for exits in progress; tests run one at a time in this process).
+	for k := 0; k < 3000; k++ {
+		v.leaked = v.leaked[:0]
+		for _, g := range mon.InRepo(mon.Dump(), "github.com/openconfig/gribigo/client.") {
+			if !strings.Contains(g.Stack, "verifharness/") {
+				v.leaked = append(v.leaked, fmt.Sprintf("g%s [%s] %s", g.ID, g.State, firstClientFrame(g.Stack)))
+			}
+		}
+		if len(v.leaked) == 0 {
+			break
+		}
+		time.Sleep(time.Millisecond)
+	}
 	v.failed = len(tb.Fatals)+len(tb.Errors) > 0
 	v.skipped = tb.Skipped() && !v.failed
 	v.msgs = append(append([]string{}, tb.Fatals...), tb.Errors...)
@@ -176,7 +205,7 @@ func TestCheck(t *testing.T) {
 	run.Set("compliance_tests_in_suite", len(compliance.TestSuite))
 	run.Set("fault_catalogue", faultNames())
 	run.Assume("the reference server wrapped by a traffic-rewriting proxy is a faithful single-requirement violator: a control sample of unrelated tests must still pass under each fault")
-	run.Finish("conformant half: the whole compliance.TestSuite run in seeded random permutations on ONE long-lived in-memory reference server per configuration (plus a second one without forward references for the tests that require it), fresh fluent clients on their own transports per test, for election bases 1 / 1000 / 2^32 / 2^63-2^20 and renamed / unicode network-instance names, plus four timing variants of the same conformant set-up (slow responses, slow request handling, slow client enqueue, slow client receive - injected through a proxy and the client's yield points); every non-skipped test must pass in every order and configuration; all 6 orders of the forward-reference trio. Faulty half: a catalogue of proxies around the reference server, each breaking one protocol requirement by rewriting requests or responses; every compliance test written for that requirement must FAIL (captured by a fatal-capturing testing.TB), a control sample of unrelated tests must still pass. Distinct = by (configuration, permutation) and (fault, test)", 10, false)
+	run.Finish("conformant half: the whole compliance.TestSuite run in seeded random permutations on ONE long-lived in-memory reference server per configuration (plus a second one without forward references for the tests that require it), fresh fluent clients on their own transports per test, for election bases 1 / 1000 / 2^32 / 2^63-2^20 and renamed / unicode network-instance names, plus four timing variants of the same conformant set-up (slow responses, slow request handling, slow client enqueue, slow client receive - injected through a proxy and the client's yield points); every non-skipped test must pass in every order and configuration, and leave no goroutine of the client library behind once its clients are stopped; all 6 orders of the forward-reference trio. Faulty half: a catalogue of proxies around the reference server, each breaking one protocol requirement by rewriting requests or responses; every compliance test written for that requirement must FAIL (captured by a fatal-capturing testing.TB), a control sample of unrelated tests must still pass. Distinct = by (configuration, permutation) and (fault, test)", 10, false)
 }
 
 func faultNames() []string {
@@ -282,6 +311,10 @@ func conformant(col *child.Collector, wr *child.Writer, sp *child.Spec, cfg conf
 		}
 		v := runTest(e, tt)
 		names = append(names, tt.In.ShortName)
+		if len(v.leaked) > 0 && !v.failed {
+			col.Violation(caseID, "client-goroutines-left-behind:"+sanit(tt.In.ShortName), fmt.Sprintf("after %q (passed, every client stopped) %d goroutine(s) of the client library are still alive: %v", tt.In.ShortName, len(v.leaked), v.leaked), nil)
+		}
+		col.Count("goroutine_censuses_after_tests", 1)
 		switch {
 		case v.failed:
 			prev := "first"
